@@ -1,8 +1,10 @@
 """C09 - generated firmware is memory-safe and does not leak across loop() passes.
 
-Tie H: generated list scripts (literals, range comprehensions, append/remove, indexing incl. negative indices,
-`x = y` copies, re-assignment, lists local to the main loop, lists passed by value to user functions, lists shared
-between setup() and the main loop) are
+Tie H: generated list scripts (literals, range comprehensions, append/remove - also with an ELEMENT OF A LIST as
+argument, in particular of the very list that is modified: `ring.append(ring[0])`, `w.remove(w[-1])` -, indexing incl.
+negative indices, `x = y` copies, re-assignment, TUPLE ASSIGNMENTS between lists (swaps, rotations, permutations; with
+literals, repeated names and new names outside the guard), lists returned by user functions, lists local to the main
+loop, lists passed by value to user functions, lists shared between setup() and the main loop) are
   * run as statements by the extracted Coq model (coq/Wire/C09W.v: parser's choice of emitted form, the list helper
     templates as heap transformers, setup() + N passes of loop(), and the CPython reference semantics),
   * executed under real CPython (harness/impl/c09_impl.py: printed values, live list data after every phase),
@@ -25,13 +27,16 @@ from harness import fw
 META = {
     "id": "C09",
     "technique": "Coq proof (heap model of the emitted list helper templates; single-owner invariant by induction over statements and passes; simulation of the CPython reference semantics) + extracted-model correspondence with the real transpiler's firmware compiled with clang++ ASan/UBSan and an interposed allocation counter + CPython reference run + property oracle on the sanitizer verdict and per-pass heap usage",
-    "level_text": "Theorems C09_* (coq/Props/C09.v): every list helper is safe iff Python's index condition holds and frees exactly what it replaces (all heaps, all lists); for every single-owner list program and every number of passes the firmware is memory-safe whenever CPython raises no exception, every reachable heap holds exactly the cells of the live lists, and heap usage follows Python's live data (partial: guard single_owner). Refuted with witnesses reproduced on the real firmware under ASan: `b = a` aliasing (use after free, double free), by-value list parameter mutated by the callee, list locals of the main loop and re-assignment temporaries (one block leaked per pass), `c = a` deep copy vs Python alias (heap grows while Python's live data is constant).",
+    "level_text": "Theorems C09_* (coq/Props/C09.v): every list helper is safe iff Python's index condition holds and frees exactly what it replaces (all heaps, all lists), also when the `const T&` argument of append/remove refers into a list buffer - of the same list included (C09_argument_alias_safe); tuple assignments that permute declared lists keep every buffer single-owned (values after = permutation of values before, proved for all permutations); for every single-owner list program and every number of passes the firmware is memory-safe whenever CPython raises no exception, every reachable heap holds exactly the cells of the live lists, and heap usage follows Python's live data (partial: guard single_owner). Refuted with witnesses reproduced on the real firmware under ASan: `b = a` aliasing (use after free, double free), by-value list parameter mutated by the callee, list locals of the main loop and re-assignment temporaries (one block leaked per pass), `c = a` deep copy vs Python alias (heap grows while Python's live data is constant), `a = ident(a)` (__redu_list_assign from a temporary sharing the buffer: use after free), `a, b = [..], a` (tuple assignment drops a buffer without delete[]: leak); reproduced but outside the model: stale transpile-time len() used as index (out-of-bounds read).",
     "level_note": "Trusted: Coq kernel, extraction (ExtrOcamlBasic), OCaml driver, mock Arduino core (operator new[]/delete[] interposed: live-block/byte counter), clang++ 14 AddressSanitizer/UBSan as the memory checker, CPython 3.12 as the reference. The theorems are about the Gallina heap model; the correspondence bounds its distance from emitter.py's LIST_HELPER_SNIPPET and parser.py's assignment lowering. Element values are ints; String buffers, C int overflow of range(), control flow around list statements and the heap behaviour of the real AVR allocator are outside the model.",
     "design_ref": "DESIGN.md section 4 C09",
 }
 
 BATCH = 10            # safe-expected parts per sketch
 ELEM = 4              # sizeof(int) under the mock
+STR_ELEM, STR_COOKIE = 32, 8      # sizeof(String) of the mock core; new String[n] stores the element count in front
+STR_KINDS = (0, 2, 5, 8, 9, 10)   # what a script can do with a list of strings (append("x") / remove("x") with a literal
+                                  # do not compile - template deduction String vs char[N]: C06's domain)
 VALS = [0, 1, 2, 3, 5, 7, -1]
 KIND_NAMES = {0: "out-of-bounds", 1: "use-after-free", 2: "double-free"}
 EXC_CODE = {"IndexError": 0, "ValueError": 1, "NameError": 2}
@@ -42,14 +47,28 @@ EXC_CODE = {"IndexError": 0, "ValueError": 1, "NameError": 2}
 #   [0,x,[items]] x = [..]      [1,x,[a,b,st,m,c]] x = [i*m+c for i in range(a,b,st)]     [2,x,y] x = y
 #   [3,x,v] x.append(v)   [4,x,v] x.remove(v)   [5,x,i] mon.write(x[i])   [6,x,i] r = f(x,i); mon.write(r)
 #   [7,x,v] r = g(x,v); mon.write(r)
+#   [8,x,y,i] x.append(y[i])   [9,x,y,i] x.remove(y[i])      (the argument is an element of a list - of x itself when y == x)
+#   [10,[x..],[rhs..]] x1, .., xn = r1, .., rn   with rhs = [0,y] (the list y) | [1,[items]] (a literal)
+#   [11,x,y] x = ident(y)   with  def ident(xs): return xs
+#   a program may carry "lines": {"head","setup","body"} - the literal script lines (witnesses of findings whose
+#   statements are outside the wire vocabulary); such programs never go to the model
 # --------------------------------------------------------------------------
 
 def par(v: int) -> str:
     return f"({v})" if v < 0 else str(v)
 
 
-def stmt_lines(s):
+def stmt_lines(s, elem=None):
+    """elem == "str": the same statements on lists of strings (every value v is the string "v")"""
     t = s[0]
+    if elem == "str":
+        if t == 0:
+            return [f"l{s[1]} = [" + ", ".join(f'"{v}"' for v in s[2]) + "]"]
+        if t == 10:
+            rhs = [f"l{r[1]}" if r[0] == 0 else "[" + ", ".join(f'"{v}"' for v in r[1]) + "]" for r in s[2]]
+            return [", ".join(f"l{x}" for x in s[1]) + " = " + ", ".join(rhs)]
+        if t not in STR_KINDS:
+            raise ValueError(s)
     if t == 0:
         return [f"l{s[1]} = [" + ", ".join(str(v) for v in s[2]) + "]"]
     if t == 1:
@@ -67,7 +86,26 @@ def stmt_lines(s):
         return [f"r = f(l{s[1]}, {s[2]})", "mon.write(r)"]
     if t == 7:
         return [f"r = g(l{s[1]}, {s[2]})", "mon.write(r)"]
+    if t == 8:
+        return [f"l{s[1]}.append(l{s[2]}[{s[3]}])"]
+    if t == 9:
+        return [f"l{s[1]}.remove(l{s[2]}[{s[3]}])"]
+    if t == 10:
+        rhs = [f"l{r[1]}" if r[0] == 0 else "[" + ", ".join(str(v) for v in r[1]) + "]" for r in s[2]]
+        return [", ".join(f"l{x}" for x in s[1]) + " = " + ", ".join(rhs)]
+    if t == 11:
+        return [f"l{s[1]} = ident(l{s[2]})"]
     raise ValueError(s)
+
+
+def stmt_names(s):
+    """every list name a statement mentions"""
+    t = s[0]
+    if t == 10:
+        return list(s[1]) + [r[1] for r in s[2] if r[0] == 0]
+    if t in (2, 8, 9, 11):
+        return [s[1], s[2]]
+    return [s[1]]
 
 
 def gated(prog) -> bool:
@@ -76,6 +114,9 @@ def gated(prog) -> bool:
 
 def lines_of(prog):
     """-> (head, setup, body) source lines; body lines are relative to the `while True:` block"""
+    if prog.get("lines"):
+        ln = prog["lines"]
+        return list(ln["head"]), list(ln["setup"]), list(ln["body"])
     stmts = prog["setup"] + prog["body"]
     head = ["from Reduino.Communication import SerialMonitor"]
     if gated(prog):
@@ -87,19 +128,22 @@ def lines_of(prog):
         head += ["def f(xs, k):", "    return xs[k]"]
     if any(s[0] == 7 for s in stmts):
         head += ["def g(xs, v):", "    xs.append(v)", "    return xs[0]"]
+    if any(s[0] == 11 for s in stmts):
+        head += ["def ident(xs):", "    return xs"]
     if any(s[0] in (6, 7) for s in stmts):
         head += ["r = 0"]
-    setup = [ln for s in prog["setup"] for ln in stmt_lines(s)]
+    elem = prog.get("elem")
+    setup = [ln for s in prog["setup"] for ln in stmt_lines(s, elem)]
     body = ['mon.write("-")']
     if gated(prog):
         body.append("c = p.read()")
         for s, t in zip(prog["body"], prog["gates"]):
             if t < 0:
-                body += stmt_lines(s)
+                body += stmt_lines(s, elem)
             else:
-                body += [f"if c > {t}:"] + ["    " + ln for ln in stmt_lines(s)]
+                body += [f"if c > {t}:"] + ["    " + ln for ln in stmt_lines(s, elem)]
     else:
-        body += [ln for s in prog["body"] for ln in stmt_lines(s)]
+        body += [ln for s in prog["body"] for ln in stmt_lines(s, elem)]
     return head, setup, body
 
 
@@ -122,9 +166,13 @@ def rename(stmts, off):
     out = []
     for s in stmts:
         s = list(s)
-        s[1] += off
-        if s[0] == 2:
-            s[2] += off
+        if s[0] == 10:
+            s[1] = [x + off for x in s[1]]
+            s[2] = [[0, r[1] + off] if r[0] == 0 else [1, list(r[1])] for r in s[2]]
+        else:
+            s[1] += off
+            if s[0] in (2, 8, 9, 11):
+                s[2] += off
         out.append(s)
     return out
 
@@ -132,7 +180,7 @@ def rename(stmts, off):
 def nvars(part):
     m = -1
     for s in part["setup"] + part["body"]:
-        m = max(m, s[1], s[2] if s[0] == 2 else -1)
+        m = max([m] + stmt_names(s))
     return m + 1
 
 
@@ -146,38 +194,45 @@ def combine(parts, N):
         if p.get("gvals"):
             gvals = p["gvals"]
         off += nvars(p)
-    return {"setup": setup, "body": body, "N": N, "gates": gates, "gvals": gvals or [0] * N}
+    out = {"setup": setup, "body": body, "N": N, "gates": gates, "gvals": gvals or [0] * N}
+    if parts and parts[0].get("elem"):
+        out["elem"] = parts[0]["elem"]
+    return out
 
 
 def guard_py(prog) -> bool:
     """single_owner of coq/Device/DListProg.v on the elaborated program, re-implemented for the oracle
     (cross-checked against the model's guard bit on every case)"""
+    if prog.get("lines"):
+        return False
     decl = []
+
+    def use_ok(s):
+        t = s[0]
+        if t == 2:
+            return s[1] == s[2] and s[1] in decl
+        if t in (3, 4, 5, 6):
+            return s[1] in decl
+        if t in (8, 9):
+            return s[1] in decl and s[2] in decl
+        if t == 10:
+            xs, rs = s[1], s[2]
+            if any(r[0] != 0 for r in rs):
+                return False
+            ys = [r[1] for r in rs]
+            return (len(xs) == len(ys) and len(set(xs)) == len(xs) and len(set(ys)) == len(ys)
+                    and all(y in xs for y in ys) and all(x in decl for x in xs))
+        return False
+
     for s in prog["setup"]:
         t = s[0]
         if t in (0, 1):
             if s[1] in decl:
                 return False
             decl.append(s[1])
-        elif t == 2:
-            if not (s[1] == s[2] and s[1] in decl):
-                return False
-        elif t in (3, 4, 5, 6):
-            if s[1] not in decl:
-                return False
-        else:
+        elif not use_ok(s):
             return False
-    for s in prog["body"]:
-        t = s[0]
-        if t == 2:
-            if not (s[1] == s[2] and s[1] in decl):
-                return False
-        elif t in (3, 4, 5, 6):
-            if s[1] not in decl:
-                return False
-        else:
-            return False
-    return True
+    return all(use_ok(s) for s in prog["body"])
 
 
 # --------------------------------------------------------------------------
@@ -222,6 +277,18 @@ def sim(prog):
             env[s[1]][s[2]]
         elif t == 7:
             env[s[1]].append(s[2])
+        elif t == 8:
+            env[s[1]].append(env[s[2]][s[3]])
+        elif t == 9:
+            env[s[1]].remove(env[s[2]][s[3]])
+        elif t == 10:
+            vals = [env[r[1]] if r[0] == 0 else list(r[1]) for r in s[2]]
+            if len(vals) != len(s[1]):
+                raise ValueError
+            for x, v in zip(s[1], vals):
+                env[x] = v
+        elif t == 11:
+            env[s[1]] = env[s[2]]
     lives = []
     try:
         for s in prog["setup"]:
@@ -265,17 +332,66 @@ def cur_lists(stmts):
                 env[s[1]].append(s[2])
             elif t == 4:
                 env[s[1]].remove(s[2])
-        except (ValueError, KeyError):
+            elif t == 8:
+                env[s[1]].append(env[s[2]][s[3]])
+            elif t == 9:
+                env[s[1]].remove(env[s[2]][s[3]])
+            elif t == 10:
+                vals = [env[r[1]] if r[0] == 0 else list(r[1]) for r in s[2]]
+                for x, v in zip(s[1], vals):
+                    env[x] = v
+            elif t == 11:
+                env[s[1]] = env[s[2]]
+        except (ValueError, KeyError, IndexError):
             pass
     return env
 
 
-def gen_use(rng, stmts, names, allow=(3, 4, 5, 6, 2)):
+def gen_index(rng, n):
+    return rng.choice([0, -1, n - 1, -n, rng.randrange(-n, n)])
+
+
+def gen_perm(rng, names):
+    """a tuple assignment among 2..n of the declared names: swap, rotation or a random permutation"""
+    k = rng.randint(2, min(len(names), 4))
+    xs = rng.sample(names, k)
+    shape = rng.choice(["rot", "rot", "swap", "perm"])
+    if shape == "swap" or k == 2:
+        ys = list(xs)
+        ys[0], ys[1] = ys[1], ys[0]
+    elif shape == "rot":
+        ys = xs[1:] + xs[:1]
+    else:
+        ys = list(xs)
+        rng.shuffle(ys)
+    return [10, xs, [[0, y] for y in ys]]
+
+
+def gen_use(rng, stmts, names, allow=(3, 4, 5, 6, 2, 8, 8, 9, 10)):
     """one in-guard statement that is valid right after `stmts`"""
     env = cur_lists(stmts)
     x = rng.choice(names)
     cur = env.get(x, [])
     t = rng.choice(allow)
+    if t == 10:
+        if len(names) >= 2:
+            return gen_perm(rng, names)
+        t = 8
+    if t == 8:
+        # the appended value is an element of a list: of x itself (argument aliasing) two times out of three
+        y = x if rng.random() < 0.67 else rng.choice(names)
+        if not env.get(y):
+            y = x
+        if env.get(y):
+            return [8, x, y, gen_index(rng, len(env[y]))]
+        t = 3
+    if t == 9:
+        if cur:
+            cands = [(y, i) for y in names for i, v in enumerate(env.get(y, [])) if v in cur and (y == x or rng.random() < 0.5)]
+            y, i = rng.choice(cands)
+            n = len(env[y])
+            return [9, x, y, rng.choice([i, i - n])]
+        t = 3
     if t == 4 and not cur:
         t = 3
     if t in (5, 6) and not cur:
@@ -310,7 +426,17 @@ def gen_guard_part(rng, N, balanced, pattern=None):
             for _ in range(rng.randint(1, 3)):
                 x = rng.choice(names)
                 cur = cur_lists(setup + body).get(x, [])
-                if cur and rng.random() < 0.4:
+                r = rng.random()
+                if cur and r < 0.25:
+                    # rotate through the list's own elements: x.append(x[i]); x.remove(x[j])
+                    n = len(cur)
+                    pair = [[8, x, x, gen_index(rng, n)], [9, x, x, rng.choice([0, -1, -(n + 1), n])]]
+                elif cur and r < 0.35:
+                    y = rng.choice(names)
+                    if not cur_lists(setup + body).get(y):
+                        y = x
+                    pair = [[8, x, y, gen_index(rng, len(cur_lists(setup + body)[y]))], [9, x, x, -1]]
+                elif cur and r < 0.6:
                     e = cur[0]          # rotate: remove the first occurrence, append it again
                     pair = [[4, x, e], [3, x, e]]
                 else:
@@ -322,7 +448,7 @@ def gen_guard_part(rng, N, balanced, pattern=None):
                 gates[pos:pos] = [t, t]
             for _ in range(rng.randint(0, 3)):
                 pos = rng.randint(0, len(body))
-                body.insert(pos, gen_use(rng, setup + body[:pos], names, allow=(5, 6, 2, 5)))
+                body.insert(pos, gen_use(rng, setup + body[:pos], names, allow=(5, 6, 2, 5, 10, 10)))
                 gates.insert(pos, gate())
         else:
             for _ in range(rng.randint(1, 5)):
@@ -333,6 +459,37 @@ def gen_guard_part(rng, N, balanced, pattern=None):
         if sim(part) is not None:
             return part
     return {"setup": [[0, 0, [1, 2]]], "body": [[5, 0, -1]], "N": N, "kind": "guard-fallback", "gates": [-1], "gvals": pattern}
+
+
+def gen_str_part(rng, N):
+    """in-guard program over lists of STRINGS: rotation through the list's own elements, elements of other lists,
+    permutations, reads - the only list operations a script can apply to string lists"""
+    for _ in range(40):
+        names = list(range(rng.choice([1, 2, 2, 3])))
+        setup = [[0, x, [rng.choice(VALS) for _ in range(rng.choice([1, 2, 3, 4]))]] for x in names]
+        for _ in range(rng.randint(0, 2)):
+            setup.append(gen_use(rng, setup, names, allow=(8, 8, 9, 10, 5)))
+        body = []
+        for _ in range(rng.randint(1, 3)):
+            x = rng.choice(names)
+            env = cur_lists(setup + body)
+            if not env.get(x):
+                continue
+            n = len(env[x])
+            y = rng.choice(names) if rng.random() < 0.3 else x
+            if not env.get(y):
+                y = x
+            pair = [[8, x, y, gen_index(rng, len(env[y]))], [9, x, x, rng.choice([0, -1, -(n + 1), n])]]
+            pos = rng.randint(0, len(body))
+            body[pos:pos] = pair
+        for _ in range(rng.randint(0, 3)):
+            pos = rng.randint(0, len(body))
+            body.insert(pos, gen_use(rng, setup + body[:pos], names, allow=(5, 10, 10, 2, 5)))
+        part = {"setup": setup, "body": body, "N": N, "kind": "guard-strings", "gates": [-1] * len(body), "gvals": None, "elem": "str"}
+        if body and all(s[0] in STR_KINDS for s in setup + body) and sim(part) is not None:
+            return part
+    return {"setup": [[0, 0, [1, 2]]], "body": [[8, 0, 0, 0], [9, 0, 0, 0]], "N": N, "kind": "guard-strings", "gates": [-1, -1],
+            "gvals": None, "elem": "str"}
 
 
 def gen_index_error_part(rng, N):
@@ -350,7 +507,11 @@ def gen_index_error_part(rng, N):
     x = rng.choice(names)
     n = len(env[x])
     i = rng.choice([n, n, n + 1, -n - 1, -n - 5, -n - 6, n + 3])
-    seq.insert(pos, [rng.choice([5, 5, 6]), x, i])
+    t = rng.choice([5, 5, 6, 8, 8, 9])
+    if t in (8, 9):
+        seq.insert(pos, [t, rng.choice(names), x, i])      # x2.append(x[i]) / x2.remove(x[i]) with i out of range
+    else:
+        seq.insert(pos, [t, x, i])
     if where == "body":
         part["gates"].insert(pos, -1)
     part["kind"] = "index-error"
@@ -359,7 +520,7 @@ def gen_index_error_part(rng, N):
 
 def gen_outside_part(rng, N):
     """aliasing, re-assignment, loop locals, by-value mutation: outside the single-owner guard"""
-    kind = rng.choice(["alias", "alias", "reassign", "looplocal", "byvalue", "mixed", "clone"])
+    kind = rng.choice(["alias", "alias", "reassign", "looplocal", "byvalue", "mixed", "clone", "tuple", "tuple", "ret"])
     a = [0, 0, [rng.choice(VALS) for _ in range(rng.choice([1, 2, 3]))]]
     setup, body = [a], []
     slen = {0: len(a[2])}
@@ -376,6 +537,44 @@ def gen_outside_part(rng, N):
         ops = [[3, 1, 5], [4, 0, 5], [3, 0, 6], [4, 1, 6], [5, 0, -1], [5, 1, 0], [3, 0, 8], [4, 0, 8], [2, 1, 0], [2, 0, 1]]
         for _ in range(rng.randint(1, 4)):
             body.append(rng.choice(ops))
+    elif kind == "tuple":
+        # tuple assignments that are NOT a permutation of declared names: a literal on the right (the target's old
+        # buffer is dropped without delete[]), the same name twice (two owners), undeclared targets (struct copies)
+        b = [0, 1, [rng.choice(VALS) for _ in range(rng.choice([1, 2, 3]))]]
+        setup.append(b)
+        shape = rng.choice(["lit", "lit", "dup", "new", "lit2", "self-elem"])
+        where = body if rng.random() < 0.7 else setup
+        if shape == "lit":
+            where.append([10, [0, 1], [[1, [rng.choice(VALS) for _ in range(slen[0])]], [0, 0]]])
+        elif shape == "lit2":
+            where.append([10, [0, 1], [[1, [7] * slen[0]], [1, [8] * len(b[2])]]])
+        elif shape == "dup":
+            where.append([10, [0, 1], [[0, 1], [0, 1]]])
+            body += rng.choice([[[5, 0, 0]], [[3, 0, 9], [5, 1, 0]], [[3, 1, 9], [4, 1, 9], [5, 0, -1]]])
+        elif shape == "new":
+            # all targets new: at top level two global struct copies, in the loop two locals of loop()
+            where.append([10, [2, 3], [[0, 1], [0, 0]]])
+            (body if where is body or rng.random() < 0.5 else setup).append([5, 2, 0])
+            if rng.random() < 0.5:
+                body += [[3, 0, 9], [5, 3, 0]]
+        else:
+            where.append([10, [0, 1], [[0, 1], [0, 0]]])
+            body += [[8, 0, 1, 0], [9, 0, 0, -1]]
+        body.append([5, 0, -1])
+    elif kind == "ret":
+        # x = ident(y): __redu_list_assign from a temporary struct copy of y (x == y: the deleted buffer is the source)
+        setup.append([0, 1, [rng.choice(VALS) for _ in range(slen[0])]])
+        shape = rng.choice(["self", "self", "other", "new"])
+        where = body if rng.random() < 0.6 else setup
+        if shape == "self":
+            where.append([11, 0, 0])
+        elif shape == "other":
+            where.append([11, 1, 0])
+            body += rng.choice([[[5, 1, 0]], [[3, 1, 5], [4, 1, 5]], [[3, 0, 5], [5, 1, -1], [4, 0, 5]]])
+        else:
+            where.append([11, 2, 0])
+            body += [[5, 2, 0]]
+        body.append([5, 0, 0])
     elif kind == "reassign":
         where = body if rng.random() < 0.7 else setup
         if rng.random() < 0.5:
@@ -417,7 +616,7 @@ def gen_outside_part(rng, N):
 
 
 EX_ALPHABET = [[3, 0, 5], [4, 0, 5], [4, 0, 1], [5, 0, -1], [5, 0, 1], [5, 0, 2], [2, 0, 0], [2, 1, 0], [0, 0, [7, 8]],
-               [5, 1, 0], [3, 1, 6], [7, 0, 9], [6, 0, -2]]
+               [5, 1, 0], [3, 1, 6], [7, 0, 9], [6, 0, -2], [8, 0, 0, -1], [9, 0, 0, 0], [11, 0, 0]]
 
 
 def gen_exhaustive_parts(max_len, N):
@@ -536,7 +735,10 @@ def oracle(prog, res):
 
 
 def public(prog):
-    return {"setup": prog["setup"], "body": prog["body"], "N": prog["N"], "gates": prog.get("gates"), "gvals": prog.get("gvals")}
+    out = {"setup": prog["setup"], "body": prog["body"], "N": prog["N"], "gates": prog.get("gates"), "gvals": prog.get("gvals")}
+    if prog.get("elem"):
+        out["elem"] = prog["elem"]
+    return out
 
 
 def reduce_failure(case, key):
@@ -568,7 +770,10 @@ def load_findings(ctx):
 
 def finding_reproduces(f) -> bool:
     w = f["witness"]
-    prog = w["program"]
+    prog = dict(w["program"])
+    if prog.get("lines"):
+        prog.setdefault("setup", [])
+        prog.setdefault("body", [])
     res = run_all([prog])[0]
     if not py_ok(res["py"], prog["N"]):
         return False            # the witness must be a script CPython runs without exception
@@ -626,6 +831,8 @@ def run(ctx: C.Ctx):
             parts.append(p)
     for i in range(500 if thorough else 60):
         parts.append(gen_outside_part(rng, N))
+    for i in range(150 if thorough else 20):
+        parts.append(gen_str_part(rng, N))
     ex_parts = gen_exhaustive_parts(3 if thorough else 2, N)
     parts += ex_parts
     # ---- classify every part with the model: safe-expected parts are batched, the others run alone
@@ -666,16 +873,18 @@ def run(ctx: C.Ctx):
     for group0, fam in ((in_const, "batch-in-guard-constant-live-data"), (in_var, "batch-in-guard-varying-live-data"),
                         (in_exc, "batch-in-guard-python-raises"), (out_g, "batch-outside-guard")):
         # one potentiometer per sketch: parts of a batch share the per-pass run-time values
+        def pkey(p):
+            return (tuple(p["gvals"]) if p.get("gvals") else None, p.get("elem"))
         pats = []
         for p in group0:
-            k = tuple(p["gvals"]) if p.get("gvals") else None
-            if k not in pats:
-                pats.append(k)
+            if pkey(p) not in pats:
+                pats.append(pkey(p))
         for k in pats:
-            group = [p for p in group0 if (tuple(p["gvals"]) if p.get("gvals") else None) == k]
+            group = [p for p in group0 if pkey(p) == k]
             for i in range(0, len(group), BATCH):
                 chunk = group[i:i + BATCH]
-                cases.append({"prog": combine(chunk, N), "parts": chunk, "family": fam + ("-gated" if k else "")})
+                cases.append({"prog": combine(chunk, N), "parts": chunk,
+                              "family": fam + ("-gated" if k[0] else "") + ("-strings" if k[1] else "")})
     for p in single:
         cases.append({"prog": combine([p], N), "parts": [p], "family": "single-" + p["kind"].split("-")[0]})
 
@@ -736,6 +945,8 @@ def run(ctx: C.Ctx):
                     if "exc" in b:
                         break
                     ints = [x for x in b["out"] if isinstance(x, int)]
+                    if prog.get("elem") == "str":
+                        ints = [int(x) for x in b["out"] if isinstance(x, str) and re.fullmatch(r"-?\d+", x)]
                     if a[0] != ints or a[1] != b["live"]:
                         ctx.disagree(f"CPython reference, phase {k}: printed values / live data differ (model vs real CPython)",
                                      info, [a[0], a[1]], [ints, b["live"]])
@@ -755,7 +966,8 @@ def run(ctx: C.Ctx):
                         if a[0] != b[0]:
                             ctx.disagree(f"phase {k}: printed list elements differ (model vs firmware)", info, a[0], b[0])
                             break
-                        if a[1] != b[1] or a[2] * ELEM != b[2]:
+                        mbytes = a[2] * ELEM if prog.get("elem") != "str" else a[2] * STR_ELEM + a[1] * STR_COOKIE
+                        if a[1] != b[1] or mbytes != b[2]:
                             ctx.disagree(f"phase {k}: live heap differs (model blocks/cells vs firmware blocks/bytes)", info,
                                          [a[1], a[2]], [b[1], b[2]])
                             break
@@ -765,7 +977,7 @@ def run(ctx: C.Ctx):
                     if mferr == 0:
                         st["oob_not_detected_by_asan"] += 1       # e.g. data[-1]: lands in the counter's own header
                         for k, (a, b) in enumerate(zip(mf, ph)):
-                            if a[0] != b[0] or a[1] != b[1] or a[2] * ELEM != b[2]:
+                            if a[0] != b[0] or a[1] != b[1] or (prog.get("elem") != "str" and a[2] * ELEM != b[2]):
                                 ctx.disagree(f"phase {k} (before the out-of-bounds access): model vs firmware", info, list(a), list(b))
                                 break
                     else:
@@ -819,14 +1031,20 @@ def run(ctx: C.Ctx):
         "distinct_nontrivial": len(distinct),
         "rule": "parts = small list programs (setup statements + main-loop body, N = 4 passes): (a) single-owner programs, 1-3 lists "
                 "declared by literals / range comprehensions (boundary ranges: empty, negative step, partial last step), then append / "
-                "remove / index (0, -1, len-1, -len, random) / by-value reader call / `x = x`, with bodies that are balanced (append+remove "
-                "pairs, rotations: live data constant from pass to pass) or free (growing / shrinking); (b) the same with one index "
-                "just outside the range (len, len+1, len+3, -len-1, -len-5, -len-6) somewhere in setup or body; (c) programs outside the guard: "
+                "remove / index (0, -1, len-1, -len, random) / by-value reader call / `x = x` / append and remove whose argument is an element "
+                "`y[i]` of a declared list (two times out of three of the SAME list: argument aliasing through the helpers' `const T&`) / tuple "
+                "assignments that permute 2-4 declared lists (swap, rotation, random permutation) - the same shapes also over lists of STRINGS "
+                "(kind guard-strings: literals, element-argument append/remove, permutations, reads) -, with bodies that are balanced (append+remove "
+                "pairs, rotations by value and through the list's own elements `x.append(x[i]); x.remove(x[j])`, permutations: live data constant "
+                "from pass to pass) or free (growing / shrinking); (b) the same with one index "
+                "just outside the range (len, len+1, len+3, -len-1, -len-5, -len-6) somewhere in setup or body, also inside an append/remove "
+                "argument; (c) programs outside the guard: tuple assignments with a literal on the right, the same name twice, undeclared targets "
+                "(top level and main loop), `x = ident(y)` / `x = ident(x)` through a list-returning function, "
                 "`b = a` aliases used after the other name appends / removes, re-assignment from literals and comprehensions, lists local "
                 "to the main loop, struct copies local to loop(), a callee mutating its by-value list parameter; half of the (a) parts put "
                 "their loop statements under run-time conditions `if c > t:` (t in -1 (none), 0, 1, 2; c = analogRead per pass from 3 input "
                 "patterns), so that different passes execute different statement sequences (append/remove pairs share a gate); (d) every statement "
-                "sequence of length <= 2 (quick) / <= 3 (thorough) over a 13-statement boundary alphabet on l0 = [1, 2] as loop body. Every "
+                "sequence of length <= 2 (quick) / <= 3 (thorough) over a 16-statement boundary alphabet (incl. l0.append(l0[-1]), l0.remove(l0[0]), l0 = ident(l0)) on l0 = [1, 2] as loop body. Every "
                 "part is classified by the model; parts it expects to run safely are batched 10 per sketch (disjoint names), the others "
                 "run one per sketch (quick tier: a seeded sample). evaluations = phases (setup + passes) of in-guard exception-free "
                 "sketches judged by the oracle + 1 per other sketch compared; distinct non-trivial = distinct parts with more than 2 statements.",
@@ -835,22 +1053,30 @@ def run(ctx: C.Ctx):
         "traces_validated_against_impl": st["phases_compared"],
         "distribution": st,
         "exhaustive": False,
-        "exhaustive_part": f"loop bodies of length <= {3 if thorough else 2} over the 13-statement alphabet (classified by the model; "
+        "exhaustive_part": f"loop bodies of length <= {3 if thorough else 2} over the 16-statement alphabet (classified by the model; "
                       f"{'all' if thorough else 'a seeded sample of the unsafe ones'} run on the firmware)",
         "guard": "single_owner (coq/Device/DListProg.v; harness guard_py cross-checked against it on every case): lists are declared "
                  "before the main loop from a literal or a range comprehension, each under a fresh name; afterwards only append / remove / "
-                 "index / by-value read-only call / `x = x`. Outside (listed findings): `b = a` (F-C09-alias-use-after-free, "
+                 "index / by-value read-only call / `x = x` / `x.append(y[i])`, `x.remove(y[i])` with x, y declared (possibly the same) / tuple assignment "
+                 "whose right-hand sides are its (declared, pairwise different) targets in another order. Outside (listed findings): tuple assignment with a literal "
+                 "(F-C09-tuple-assignment-literal-leak), list assigned from a function call (F-C09-assign-from-call-self-alias-use-after-free), len() of a list "
+                 "used as an index (F-C09-stale-len-out-of-bounds; never generated), `b = a` (F-C09-alias-use-after-free, "
                  "F-C09-alias-double-free, F-C09-clone-divergence-heap-growth, F-C09-clone-divergence-out-of-bounds), re-assignment from a literal or comprehension (F-C09-reassign-temporary-leak), list first "
                  "assigned inside the main loop (F-C09-loop-local-leak), function mutating its list parameter "
                  "(F-C09-byvalue-param-use-after-free). Oracle also requires CPython to run the script without any exception. Programs "
                  "outside the guard still go through the correspondence (the model contains the defects).",
-        "unmodelled": ["String element buffers and str indexing (Arduino String of the mock; abstracted as always-safe values)",
+        "unmodelled": ["the heap behaviour INSIDE String elements and str indexing (Arduino String of the mock; element values are abstract in the model). Lists OF strings "
+                       "are exercised (family *-strings: rotations through own elements, elements of other lists, permutations, reads) and compared with the model on "
+                       "printed values, live blocks and live bytes (32 bytes per String + 8 per block under the mock)",
                        "C int overflow in __redu_list_from_range's counting loop; element type conversions (static_cast<T>)",
                        "control flow other than `if <run-time value> > <const>:` around single list statements of the main loop (for / while / nested if / else); declarations inside conditionals",
                        "subscript stores `a[i] = v` (the transpiler drops the line: C07's domain; the model keeps list_set as a helper-level operation only)",
                        "allocator behaviour of the real AVR heap (fragmentation, new[] failure); out-of-bounds reads that ASan cannot see "
                        "(1-4 ints before the buffer fall into the mock counter's own header: counted in distribution.oob_not_detected_by_asan)",
-                       "len() of a list (constant-folded by the parser: C03's domain)"],
+                       "len() of a list (constant-folded by the parser: C03's domain; its memory-safety consequence is recorded as F-C09-stale-len-out-of-bounds and replayed, not modelled)",
+                       "append/remove arguments that are expressions over list elements (`a.append(a[0] + 1)`: a temporary, by value) or run-time scalars; list literals built from elements of lists (`b = [a[1], a[0]]`)",
+                       "tuple assignments that mix lists and scalars, or declare some targets and assign others inside setup() (the new names become locals of setup(): C06's domain)",
+                       "the order of evaluation of `list.data[i] == value` inside __redu_list_remove when BOTH operands are invalid (outside the guard only)"],
         "trusted_base": C.COMMON_TRUSTED + [
             "mock/mock_core.cpp operator new[]/delete[] interposition (live blocks / bytes, sampled after setup() and every pass), mock Serial printing",
             "clang++ 14 -fsanitize=address,undefined -O0 as the memory checker (halting on the first report; class read from its SUMMARY line)",
